@@ -106,7 +106,15 @@ def gen_sexa(seed, n, shard):
         if i % 7 == 3:
             # an Angle that went through to_positive() (values just below zero end up just below 360)
             a = Angle(-abs(v) if i % 14 == 3 else -10.0 ** -(5 + i % 17))
+            if i % 2:
+                # ... and that was decomposed and printed BEFORE (whatever those calls left in the object is stale now)
+                a.dms_tuple(), a.ra_tuple(), a.dms_str(), a.ra_str(), a.rad(), a.get_ra()
             a.to_positive()
+        elif i % 7 == 5:
+            # a long-lived Angle: decomposed and printed, then given its value by one of the in-place setters
+            a = Angle(-33.3125)
+            a.dms_tuple(), a.ra_tuple(), a.dms_str(), a.ra_str(), a.rad(), a.get_ra()
+            (a.set, a.set_ra, a.set_radians)[i % 3]((v, v / 15.0, math.radians(v))[i % 3])
         val = a()
         fv = fx(val)
         vs = (val > 0) - (val < 0)
